@@ -69,7 +69,7 @@ def run_one(sid):
     res = {"id": sid, "property": prop, "time": time.strftime("%Y-%m-%d %H:%M:%S")}
     sh(["git", "-C", "/repo", "worktree", "add", "-q", wt, "HEAD"])
     try:
-        demo_dir = meta.get("demo_dir") or "."
+        demo_dir = (meta.get("demo_dir") or ".").split()[0]
         demo_dir = demo_dir.replace("/tmp/mut/%s/" % prop, "").replace("/tmp/mut/%s" % prop, ".")
         if os.path.isabs(demo_dir):
             demo_dir = "."
@@ -82,7 +82,12 @@ def run_one(sid):
             shutil.copyfile(demo_src, demo_dst)
             names = re.findall(r"^func (Test\w+)\(", open(demo_src).read(), re.M)
             run_re = "^(" + "|".join(names) + ")$" if names else "."
-            rc, out = sh(["go", "test", "-vet=off", "-count=1", "-run", run_re, "."], cwd=target_dir)
+            extra = []
+            if "-race" in str(meta.get("demo_cmd", "")):
+                extra.append("-race")
+            if "verif" in str(meta.get("demo_cmd", "")) and "-tags" in str(meta.get("demo_cmd", "")):
+                extra += ["-tags", "verif"]
+            rc, out = sh(["go", "test", "-vet=off", "-count=1"] + extra + ["-run", run_re, "."], cwd=target_dir)
             res["demo_clean_passes"] = rc == 0
             if rc != 0:
                 res["demo_clean_output"] = out[-1500:]
@@ -96,7 +101,7 @@ def run_one(sid):
         if rc != 0:
             return res
         if have_demo:
-            rc, out = sh(["go", "test", "-vet=off", "-count=1", "-run", run_re, "."], cwd=target_dir)
+            rc, out = sh(["go", "test", "-vet=off", "-count=1"] + extra + ["-run", run_re, "."], cwd=target_dir)
             res["demo_fails_with_patch"] = rc != 0
             os.remove(demo_dst)
         rc, out = sh(["go", "test", "-vet=off", "-count=1", "./..."], cwd=wt)
